@@ -15,9 +15,11 @@
     [cf_validate_jwk]; keys may carry certificates (valid or not; certificates about to expire, which
     getCacheTTL refuses to cache, are not in this model).
 
-    The cache is a list of ((rendered url, kid, configured ttl), key); the endpoint hash is the same for all entries of one
-    authenticator and is left out.  Faithful to the code as it is: the cached key is returned without any
-    re-validation. *)
+    The cache is a list of ((url part, kid, configured ttl), key), url part = rendered url + rendered values of
+    templated headers; the endpoint hash is the same for all entries of one authenticator and is left out.
+    The code as it is ([fixed_F4 = true], [fixed_F6 = true]) validates a cached key with the settings of the
+    mechanism at hand and ignores an entry that does not pass; [fixed_F4 = false] is the behaviour with
+    d20d7cd reverted, [fixed_F6 = false] the one with 4a30678 reverted (url part = rendered url only). *)
 From HV Require Import Base.Prelude Base.Time C05.Model.
 
 (** what is published where at the moment of a request: rendered url -> (endpoint state, key set);
@@ -84,10 +86,11 @@ Definition fetch_fill (s : kstep) (url curl kid : string) (c : kcache) : (err + 
     end
   end.
 
-(** getKey.  The cached key is returned without any re-validation (C05-F4: the cache key covers neither
-    validate_jwk nor the trust store, so an authenticator that validates JWK certificates reuses what a laxer
-    one sharing the endpoint has cached).  [fixed_F4] = fixes/C05-F4.diff: the cached key is validated with the
-    settings of the authenticator at hand, an entry that does not pass is ignored. *)
+(** getKey.  Before fix: d20d7cd the cached key was returned without any re-validation (C05-F4: the cache key
+    covers neither validate_jwk nor the trust store, so an authenticator that validates JWK certificates reused
+    what a laxer one sharing the endpoint had cached): [fixed_F4 = false].  The code as it is
+    ([fixed_F4 = true]) validates the cached key with the settings of the authenticator at hand and ignores
+    an entry that does not pass. *)
 Definition get_key_c (fixed_F4 : bool) (s : kstep) (url curl kid : string) (c : kcache) : (err + jwk) * kcache :=
   match (if s_cache_on s then cache_find c curl kid (s_ttl s) else None) with
   | Some k => if negb fixed_F4 || key_valid (s_cf s) k
